@@ -42,7 +42,8 @@ def gen_dgram(rng, community):
     if r < 0.5:
         pass
     elif r < 0.62:
-        comm = rng.choice([b"other", community + b"x", community[:-1], b"", community.upper()])
+        comm = rng.choice([b"other", community + b"x", community[:-1], b"", community.upper(), community + b"\xff", b"\x80" + community,
+                           community[:1] + b"\xc3\xa9" + community[1:], community + b"\x00", community + b" "])
         kind = "foreign-community"
     elif r < 0.68:
         version = rng.choice([2, 5, 3, -1])
@@ -111,7 +112,7 @@ class Listener:
         async def go():
             for addr, port, data in seq:
                 try:
-                    proto.datagram_received(data, (addr, port))
+                    proto.datagram_received(data, (addr, port, 0, 0) if ":" in addr else (addr, port))
                 except Exception as exc:  # noqa: BLE001 - asyncio logs it and carries on
                     raised.append(type(exc).__name__)
                 await asyncio.sleep(0)
@@ -142,7 +143,10 @@ def one_sequence(ctx, res, community, n):
     seq, descs, kinds = [], [], []
     for _ in range(n):
         data, desc, kind = gen_dgram(ctx.rng, community)
-        addr = "10.%d.%d.%d" % (ctx.rng.randint(0, 255), ctx.rng.randint(0, 255), ctx.rng.randint(1, 254))
+        if ctx.rng.random() < 0.25:  # IPv6 senders: asyncio reports (host, port, flowinfo, scope_id)
+            addr = ctx.rng.choice(["::1", "2001:db8::%x" % ctx.rng.randint(1, 65535), "fe80::1"])
+        else:
+            addr = "10.%d.%d.%d" % (ctx.rng.randint(0, 255), ctx.rng.randint(0, 255), ctx.rng.randint(1, 254))
         seq.append((addr, ctx.rng.randint(1024, 65535), data))
         descs.append(desc)
         kinds.append(kind)
